@@ -214,11 +214,9 @@ func (x Expr) GetNodes(n gen.Node) (results []gen.Node) {
 							if i < 0 {
 								i = len(tv) + i
 							}
-							var v gen.Node
 							if 0 <= i && i < len(tv) {
-								v = tv[i]
+								results = append(results, tv[i])
 							}
-							results = append(results, v)
 						}
 					}
 				}
